@@ -348,7 +348,9 @@ fn n_labels(owner: &MName) -> u8 {
     (owner.len() - if owner.first().map(|l| l == "*").unwrap_or(false) { 1 } else { 0 }) as u8
 }
 
+/// hierarchies drawn at random (0..N_HIER); N_SPECIAL_HIER more (8, 9, 10) are placed on fixed case indices
 const N_HIER: u64 = 8;
+const N_SPECIAL_HIER: u64 = 3;
 /// more upstream requests for one query than this = the validation went around a loop
 const LOOP_CALLS: u32 = 9;
 
@@ -396,6 +398,11 @@ fn build_world(hid: u64) -> World {
             false,
             "root anchor REVOKED, KSK+ZSK",
         ),
+        // the DS RRset for leaf.tld mixes the genuine, supported DS (SHA-256) with a second DS for the same key
+        // whose digest type is unsupported (3 = GOST): 9 = unsupported one LAST, 10 = unsupported one FIRST.
+        // One usable DS is enough: leaf.tld stays Secure, tampering stays Bogus (never Insecure)
+        9 => (split(0, 1), split(2, 3), split(4, 5), csk(6), false, "KSK+ZSK, leaf DS RRset = [sha256, unsupported digest type]"),
+        10 => (split(0, 1), split(2, 3), split(4, 5), csk(6), false, "KSK+ZSK, leaf DS RRset = [unsupported digest type, sha256]"),
         _ => (split(9, 10), split(11, 8), split(7, 6), split(5, 4), false, "KSK+ZSK other keys"),
     };
     let a = |x: u8| RData::A(A::new(192, 0, 2, x));
@@ -513,12 +520,22 @@ fn build_world(hid: u64) -> World {
                             (dk.algorithm(), dk.to_digest(&hname(&c.apex), DigestType::SHA256).unwrap().as_ref().to_vec())
                         };
                         w.dig_prov.insert(dg.clone(), (c.apex.clone(), kb.clone(), 2));
+                        // hierarchies 9 / 10: a second DS for the same key with an unsupported digest type and
+                        // arbitrary digest bytes (no provenance: the model sees DBad), after / before the real one
+                        let mixed = (hid == 9 || hid == 10) && c.apex == nm("leaf.tld.") && !c.unsupported;
+                        let odd = RData::DNSSEC(DNSSECRData::DS(DS::new(key_tag(&kb), alg, DigestType::from(3u8), vec![0xA5u8; 32])));
+                        if mixed && hid == 10 {
+                            put(&mut raw, &c.apex, odd.clone(), true);
+                        }
                         put(
                             &mut raw,
                             &c.apex,
                             RData::DNSSEC(DNSSECRData::DS(DS::new(key_tag(&kb), alg, DigestType::SHA256, dg))),
                             true,
                         );
+                        if mixed && hid == 9 {
+                            put(&mut raw, &c.apex, odd, true);
+                        }
                     }
                 }
             }
@@ -1528,18 +1545,9 @@ fn known_class(w: &World, log: &BTreeMap<(MName, u16), Resp>, extra: &HashMap<Ve
             return Some("C07-K2-nonempty-answer-needs-no-denial".into());
         }
     }
-    // K3: an RRSIG whose signer name is neither the owner nor an ancestor of the owner (the validator
-    // fetches that zone's keys anyway: a key of any securely delegated zone signs for any name, and the
-    // keys of any insecure zone make the RRset "Insecure")
-    for r in log.values() {
-        for x in r.answers.iter().chain(r.authorities.iter()) {
-            if let RData::DNSSEC(DNSSECRData::RRSIG(s)) = &x.data {
-                if !is_anc_or_self(&mname(&s.input().signer_name), &mname(&x.name)) {
-                    return Some("C07-K3-signer-not-ancestor".into());
-                }
-            }
-        }
-    }
+    // (K3, the RRSIG signer name that is neither the owner nor an ancestor of the owner, was fixed in /repo:
+    // verify_default_rrset skips such RRSIGs; a Secure / Insecure verdict obtained through a foreign signer
+    // is a violation again — the attack family atk-foreign-signer stays and must be rejected)
     // K4: a DNSKEY RRset without a real signature over it, every key of which is a trust anchor's key
     // or matched by a genuine DS record: accepted key by key (subset of the real key set / an anchor
     // key under a foreign name)
@@ -1696,7 +1704,14 @@ fn case(seed: u64, index: u64) -> CaseOut {
     let mut r = Rng::for_case(seed, index);
     // one index in 40: the revoked-anchor hierarchy (8), where nothing may come back Secure
     let hid = r.below(N_HIER);
-    let hid = if index % 40 == 39 { 8 } else { hid };
+    // special hierarchies on fixed residues (the draw above is still made, so all other cases are unchanged):
+    // 8 = revoked anchor, 9 / 10 = leaf DS RRset mixing a supported and an unsupported DS
+    let hid = match index % 40 {
+        39 => 8,
+        18 => 9,
+        38 => 10,
+        _ => hid,
+    };
     let w = world(hid);
     let qs = queries();
     let (q, qtype, qkind) = qs[r.below(qs.len() as u64) as usize].clone();
@@ -2155,6 +2170,6 @@ fn main() {
         &args,
         &cases,
         "hierarchy (8 variants + 1 with a REVOKED trust anchor, of root/tld/{leaf signed, island unsigned, evil signed adversary-owned, unsup algorithm-16}; CSK / KSK+ZSK / 3 keys; Ed25519 / P-256; anchor at root or root+tld) x 12 top-level queries x {genuine, one random record-level fault, two faults, 9 targeted multi-record attack scripts} placed on any response the validator consults; real signatures; non-trivial = validator consulted at least two upstream responses; distinct by (hierarchy, query, faults). Server family: proofs of 0..5 answer records x AD/CD/DO through the real front door + Catalog + a mock external zone handler (all vectors of length <= 3 in thorough).",
-        serde_json::json!({"hierarchies": N_HIER}),
+        serde_json::json!({"hierarchies": N_HIER + N_SPECIAL_HIER}),
     );
 }
